@@ -1,0 +1,18 @@
+//go:build verif
+
+package x509
+
+// Verification hooks for the chain-building helpers of verify.go (property C10).
+// Thin wrappers of unexported functions; compiled only with -tags verif.
+
+func VerifMatchHostnames(pattern, host string) bool { return matchHostnames(pattern, host) }
+
+func VerifMatchNameConstraint(domain, constraint string) bool {
+	return matchNameConstraint(domain, constraint)
+}
+
+func VerifToLowerCaseASCII(in string) string { return toLowerCaseASCII(in) }
+
+func VerifCheckChainForKeyUsage(chain []*Certificate, keyUsages []ExtKeyUsage) bool {
+	return checkChainForKeyUsage(chain, keyUsages)
+}
